@@ -474,12 +474,15 @@ func RunHistory(rt *rapid.T, b *vx.B, o Opts) *Result {
 	if rapid.IntRange(0, 3).Draw(rt, "notifyInterval") == 0 {
 		notify = 2 * time.Second
 	}
+	obsolete := time.Duration(rapid.SampledFrom([]int{1, 2, 5, 30}).Draw(rt, "cleanupPeriodS")) * time.Second
 	c := NewCluster(b, n, func(cfg *memberlist.KVConfig) {
 		cfg.RetransmitMult = retransmit
 		cfg.NotifyInterval = notify
 		if o.ShortRetention {
 			cfg.LeftIngestersTimeout = retentionShort
 		}
+		// the periodic cleanup of deleted keys has its own, shorter period
+		cfg.ObsoleteEntriesTimeout = obsolete
 	})
 	e := &engine{rt: rt, c: c, o: o, res: res, instIDs: []string{"a", "b", "c", "d"}, parts: []int32{0, 1, 2}, owners: []string{"o0", "o1"},
 		casBy: map[string]map[int]bool{RingKey: {}, PRingKey: {}}, delivered: map[int]map[int]bool{}, strict: !o.ShortRetention}
@@ -495,20 +498,26 @@ func RunHistory(rt *rapid.T, b *vx.B, o Opts) *Result {
 	pstates := []ring.PartitionState{ring.PartitionPending, ring.PartitionActive, ring.PartitionInactive}
 
 	kinds := []string{"deliver", "deliver", "deliver", "deliver", "gossip", "gossip", "gossip", "unregister", "unregister", "pushpull", "register", "register", "heartbeat", "heartbeat",
-		"removeOwner", "removePartition", "addPartition", "partitionState", "addOwner", "partitionLock", "advance", "read", "watch"}
+		"removeOwner", "removePartition", "addPartition", "partitionState", "addOwner", "partitionLock", "advance", "read", "watch", "replace", "cleanup"}
 	if o.Faults {
 		kinds = append(kinds, "drop", "drop", "restart", "partition", "corrupt", "gossipLimited", "heal")
 	}
 	if o.RemovalBias {
-		kinds = append(kinds, "deliverOld", "deliverOld", "hazard", "hazard", "hazard", "unregister", "removeOwner", "removePartition", "advanceSmall")
+		kinds = append(kinds, "replace", "replace", "cleanup", "advance", "deliverOld", "deliverOld", "hazard", "hazard", "hazard", "unregister", "removeOwner", "removePartition", "advanceSmall")
 	}
 	if o.ShortRetention {
 		kinds = append(kinds, "advanceLong", "advanceLong", "deliverOld")
 	}
+	timeBefore := make([]string, n)
 	for s := 0; s < steps && res.Failure == ""; s++ {
 		kind := kinds[vx.Mix(rapid.Uint64().Draw(rt, "op"), len(kinds))]
 		node := rapid.IntRange(0, n-1).Draw(rt, "node")
 		res.Stats["op_"+kind]++
+		if e.strict && (kind == "advance" || kind == "advanceSmall" || kind == "advanceLong") {
+			for i := 0; i < n; i++ {
+				timeBefore[i] = c.Canon(i)
+			}
+		}
 		switch kind {
 		case "register", "heartbeat":
 			idx := rapid.IntRange(0, len(e.instIDs)-1).Draw(rt, "instance")
@@ -529,6 +538,32 @@ func RunHistory(rt *rapid.T, b *vx.B, o Opts) *Result {
 					return true
 				}
 				d.Ingesters[id] = ring.InstanceDesc{Id: id, Addr: id + ":1", Zone: "z" + id, Timestamp: now.Unix(), State: st, Tokens: append([]uint32{}, instPool(idx)[:ntok]...), RegisteredTimestamp: now.Unix()}
+				return true
+			})
+		case "replace":
+			// one update that registers an instance and removes others (an instance taking over from
+			// another, an operator replacing entries): as many or more names come as go
+			idx := rapid.IntRange(0, len(e.instIDs)-1).Draw(rt, "instance")
+			id := e.instIDs[idx]
+			home := homeOf(idx, n)
+			mask := rapid.IntRange(1, 1<<len(e.instIDs)-1).Draw(rt, "removeMask")
+			st := rapid.SampledFrom(states).Draw(rt, "state")
+			what := fmt.Sprintf("replace on node %d: register %s (state %v) and remove the visible instances of mask %b in one update", home, id, st, mask)
+			e.log("%s", what)
+			e.casRing(home, what, func(d *ring.Desc, now time.Time) bool {
+				removed := 0
+				for j, other := range e.instIDs {
+					if _, ok := d.Ingesters[other]; ok && j != idx && mask&(1<<j) != 0 {
+						d.RemoveIngester(other)
+						removed++
+					}
+				}
+				if removed == 0 {
+					return false
+				}
+				res.Stats["removals_applied"] += removed
+				res.Stats["replacements_applied"]++
+				d.Ingesters[id] = ring.InstanceDesc{Id: id, Addr: id + ":1", Zone: "z" + id, Timestamp: now.Unix(), State: st, Tokens: append([]uint32{}, instPool(idx)[:2]...), RegisteredTimestamp: now.Unix()}
 				return true
 			})
 		case "unregister":
@@ -752,6 +787,14 @@ func RunHistory(rt *rapid.T, b *vx.B, o Opts) *Result {
 			e.maxDelivered[node] = 0
 			res.PartitionsOrRestart++
 			time.Sleep(1100 * time.Millisecond) // a restarted writer never reuses a second it already wrote in
+		case "cleanup":
+			// the store's periodic cleanup runs now on this node
+			e.log("periodic cleanup on node %d", node)
+			before := c.Canon(node)
+			c.Nodes[node].VerifCleanupObsoleteEntries()
+			if e.strict && c.Canon(node) != before {
+				e.failf("the periodic cleanup on node %d changed the store although nothing is older than the retention: %s -> %s", node, before, c.Canon(node))
+			}
 		case "advance":
 			d := time.Duration(rapid.SampledFrom([]int{0, 300, 1000, 1000, 2000, 3000}).Draw(rt, "advanceMs")) * time.Millisecond
 			time.Sleep(d)
@@ -784,6 +827,15 @@ func RunHistory(rt *rapid.T, b *vx.B, o Opts) *Result {
 			e.log("register a watcher on node %d", node)
 		}
 		vx.Wait()
+		if e.strict && res.Failure == "" && (kind == "advance" || kind == "advanceSmall" || kind == "advanceLong") {
+			// retention is a day in this mode: the passing of time alone never changes what a node stores
+			for i := 0; i < n; i++ {
+				if got := c.Canon(i); got != timeBefore[i] {
+					e.failf("node %d changed its store while only the clock advanced (retention %v): %s -> %s", i, 24*time.Hour, timeBefore[i], got)
+					break
+				}
+			}
+		}
 		if res.Failure == "" && (o.RemovalBias || rapid.Bool().Draw(rt, "sendQueued")) {
 			// the node's queued broadcasts go on the wire (the adversary decides if and when they arrive)
 			c.GossipRound(node, math.MaxInt32)
